@@ -1,4 +1,4 @@
-\* quick, analysis-centred: every model of 2 types out of {a.A, a.Main, b.B, C (unnamed package)} with at most one
+\* quick, analysis-centred: every model of 2 types out of {a.A, a.Main, b.AMain, C (unnamed package)} with at most one
 \* relation item per class over 6 kinds (implements, bare supertype name, extends, field, call, call from `main`)
 \* x 5 targets (the 4 candidate types, present or absent, and a library type), unmerged and header-merged, no filter
 SPECIFICATION Spec
